@@ -210,6 +210,10 @@ def c03_jobs():
             jobs.append(Job("c03.cpp", "h_valid_packet", defs={"CLS": cls, "NB": n, "MT": mt, "PT": pt, "FULL": 1}, **common))
             c2 = dict(common, tier="thorough", sym=common["sym"] + "; declared message length symbolic (0..buffer)")
             jobs.append(Job("c03.cpp", "h_valid_packet", defs={"CLS": cls, "NB": n, "MT": mt, "PT": pt, "FULL": 0}, **c2))
+    for g in (-1, 0, 15, 16, 17, 20, 28, 40, 100):
+        jobs.append(Job("c03.cpp", "h_packet_gate", defs={"GSZ": g, "CLS": 1, "NB": 8}, unwind=140, tier="quick" if g in (-1, 15, 16, 20, 28) else "thorough", in_max=max(g, 16) + 16, mem_gb=2,
+                        mem=True, sym="all 16 message header bytes (declared length over all 65536 values); GSZ=-1: the size argument over all 64-bit values >= 16",
+                        outside="GSZ=-1 relies on the gate reading only the 16 header bytes (pointer checks of the same run)"))
     return jobs
 
 
